@@ -1,9 +1,10 @@
 import Gleece.Properties.C12
 import Gleece.Properties.Serve
-#print axioms Gleece.Router.skeleton_uniform
-#print axioms Gleece.Router.interchangeable
 #print axioms Gleece.Router.urlConv_classes
 #print axioms Gleece.Router.accessors_cover
 #print axioms Gleece.Router.gateFirst_handlerOf
 #print axioms Gleece.Serve.called_only_if_approved
 #print axioms Gleece.Serve.unmatched_not_served
+#print axioms Gleece.Serve.interchangeable_of_accessors_agree
+#print axioms Gleece.Serve.serveRoute_std
+#print axioms Gleece.Serve.bindAllA_congr
